@@ -1,6 +1,9 @@
 //! agv: runtime monitors for qkniep/alpenglow (see /verif/DESIGN.md).
 #![allow(clippy::too_many_arguments, clippy::type_complexity)]
 
+pub mod adversary;
+pub mod cluster;
+pub mod clusterrun;
 pub mod common;
 pub mod evidence;
 pub mod model;
